@@ -31,7 +31,7 @@ Record st := {
 }.
 
 Inductive label :=
-| Feed (k : nat) (wfail : option nat) (pfail : bool)   (* the reader hands over the next pack of stream k *)
+| Feed (k : nat) (big : bool) (wfail : option nat) (pfail : bool)   (* the reader hands over the next pack of stream k; big = larger than the packer's MaxMsgSize *)
 | EvDrop (k : nat) (fail : bool)                        (* drop-collection event of stream k's collection; downstream fails? *)
 | EvError (task : string)                               (* error event naming a task ("" = none) *)
 | ApiPause (task : string)
@@ -135,7 +135,7 @@ Definition reset_next (streams : list stream) (s : st) (which : stream -> bool) 
 
 Definition step (maxcount : nat) (streams : list stream) (s : st) (l : label) : st :=
   match l with
-  | Feed k wfail pfail =>
+  | Feed k big wfail pfail =>
       match nth_error streams k with
       | None => s
       | Some sm =>
@@ -148,7 +148,7 @@ Definition step (maxcount : nat) (streams : list stream) (s : st) (l : label) : 
             if negb (is_running s0 (s_task sm)) then release_if_idle streams (die streams s0 (s_ch sm) wfail pfail)
             else
               let b := (c_buf c ++ [(k, i)])%list in
-              if Nat.leb maxcount (List.length b)
+              if big || Nat.leb maxcount (List.length b)   (* Packer.Receive: an oversized pack, or the count checker, flushes the whole buffer *)
               then let '(s1, err) := flush streams s0 (s_ch sm) b wfail pfail in
                    release_if_idle streams (set_cons s1 (s_ch sm) {| c_alive := negb err; c_buf := [] |})
               else set_cons s0 (s_ch sm) {| c_alive := true; c_buf := b |}
